@@ -167,7 +167,9 @@ fn gen_inputs(r: &mut SplitMix64, methods: &[String], tier: u32) -> Inputs {
             0..=39 => 1,
             40..=74 => r.range(2, 10),
             75..=94 => r.range(11, 60),
-            _ => if tier == 0 { r.range(61, 200) } else { r.range(61, 400) },
+            // the top of the quantified range (365..400 days: where few simulated cores put the tool's
+            // own parallel threshold within reach of changed code) is sampled in the quick tier too
+            _ => if r.chance(35) { r.range(360, 400) } else if tier == 0 { r.range(61, 200) } else { r.range(61, 400) },
         };
         if lat_v.abs() > 60.0 && days > 40 {
             days = 1 + days % 40;
